@@ -538,5 +538,6 @@ LEVEL_TEXT = ("machine-checked (Lean 4), for all pairs of trees with the same ro
 LEVEL_NOTE = ("the model is tied to the code by differential testing through real pandas on generated tree pairs over the hostile "
               "alphabet (b, bc, b.c, b(, x+, 'a b', c), *, [z], b$, ^a, a|b, \\d) and the separators / . \\ | ::; multi-character "
               "separators are covered by the tie only; the row order of pandas' outer merge is not modelled (results are compared and "
-              "specified up to sibling order)")
+              "specified up to sibling order)"
+    ' Known findings K9 (separators made of the mark characters space ( ) - +) and K10 (integers >= 2**53 up-cast to float by pandas) are outside the generated domain and replayed separately on every run.')
 TECHNIQUE = "Lean 4 proof (string-level implementation model = component-level specification) + correspondence check against the real library"
